@@ -1342,6 +1342,21 @@ func (b *block) partiallyRead() bool {
 
 type blocks []*block
 
+// sortBlocks sorts blocks of one key so that a block whose time range ends before another
+// one starts comes first, while blocks whose time ranges overlap keep their relative order,
+// which is the order of the files they were read from: the merge relies on that order for
+// the values of newer files to win.  Less is only a partial order ("neither is less" is not
+// transitive), so sort.Stable must not be used with it: beyond 20 elements it merges with
+// binary searches and can move a block of a newer file in front of an overlapping block of
+// an older file.  An insertion sort only ever exchanges adjacent blocks ordered by Less.
+func sortBlocks(a blocks) {
+	for i := 1; i < len(a); i++ {
+		for j := i; j > 0 && a.Less(j, j-1); j-- {
+			a.Swap(j, j-1)
+		}
+	}
+}
+
 func (a blocks) Len() int { return len(a) }
 
 func (a blocks) Less(i, j int) bool {
